@@ -14,7 +14,7 @@ for d in sorted(glob.glob(f'{V}/seeded/C*-*')):
     assert subprocess.run(['git','-C','/repo','status','--porcelain'],capture_output=True,text=True).stdout=='' , '/repo not clean'
     a=subprocess.run(['git','-C','/repo','apply',f'{d}/patch.diff'],capture_output=True,text=True)
     if a.returncode!=0:
-        res.append({'seed':name,'property':pid,'status':'patch no longer applies (repo moved on: '+a.stderr.strip()[:120]+')'}); continue
+        res.append({'seed':name,'property':pid,'summary':meta.get('summary',''),'initially': initial.get(name,'?'),'status':'patch no longer applies to the repaired tree ('+a.stderr.strip()[:80]+')'}); continue
     r=subprocess.run([f'{V}/run.sh',pid,'quick'],capture_output=True,text=True,cwd=V)
     subprocess.run(['git','-C','/repo','checkout','--','.']); subprocess.run(['git','-C','/repo','clean','-fdq'])
     reports=[l.strip() for l in r.stdout.splitlines() if l.strip().startswith('report[')]
